@@ -105,8 +105,23 @@ def _freeze_time():
 
 
 _freeze_time()
+_REAL_AS_NODE = {cls: cls.as_etree_node for cls in (msg_types.EpisodicContextReport, msg_types.DescriptionModificationReport)}
 msg_types.EpisodicContextReport.as_etree_node = _identity_node
 msg_types.DescriptionModificationReport.as_etree_node = _identity_node
+
+
+class real_xml:     # noqa: N801
+    """Context manager: the real as_etree_node of the report classes (for harnesses whose reports really travel as XML)."""
+
+    def __enter__(self):
+        for cls, fn in _REAL_AS_NODE.items():
+            cls.as_etree_node = fn
+
+    def __exit__(self, *_a):
+        for cls in _REAL_AS_NODE:
+            cls.as_etree_node = _identity_node
+
+
 consumermdib_mod.threading = types.SimpleNamespace(Thread=_SyncThread)
 
 
